@@ -15,6 +15,7 @@ pub mod titer {
     pub fn sort_by_duration_asc(v: &mut Vec<(usize, std::time::Duration)>)
         ensures final(v)@.len() == old(v)@.len(),
             forall|i: int| 0 <= i < final(v)@.len() ==> old(v)@.contains(#[trigger] final(v)@[i]),
+            forall|i: int| 0 <= i < old(v)@.len() ==> final(v)@.contains(#[trigger] old(v)@[i]),
             forall|i: int, j: int| 0 <= i <= j < final(v)@.len() ==> crate::dur(final(v)@[i].1) <= crate::dur(final(v)@[j].1),
     { v.sort_by(|a, b| a.1.partial_cmp(&b.1).unwrap()) }
     // the same with the comparator's operands swapped: descending
@@ -22,8 +23,22 @@ pub mod titer {
     pub fn sort_by_duration_desc(v: &mut Vec<(usize, std::time::Duration)>)
         ensures final(v)@.len() == old(v)@.len(),
             forall|i: int| 0 <= i < final(v)@.len() ==> old(v)@.contains(#[trigger] final(v)@[i]),
+            forall|i: int| 0 <= i < old(v)@.len() ==> final(v)@.contains(#[trigger] old(v)@[i]),
             forall|i: int, j: int| 0 <= i <= j < final(v)@.len() ==> crate::dur(final(v)@[i].1) >= crate::dur(final(v)@[j].1),
     { v.sort_by(|a, b| b.1.partial_cmp(&a.1).unwrap()) }
+    // V.dedup_by_key(|e| e.1)  (rule T-ITER): of each run of consecutive elements with the same period, the first is kept
+    pub open spec fn dedup_dur(s: Seq<(usize, std::time::Duration)>) -> Seq<(usize, std::time::Duration)>
+        decreases s.len()
+    {
+        if s.len() <= 1 { s } else {
+            let r = dedup_dur(s.drop_last());
+            if r.len() > 0 && crate::dur(r.last().1) == crate::dur(s.last().1) { r } else { r.push(s.last()) }
+        }
+    }
+    #[verifier::external_body]
+    pub fn dedup_by_duration(v: &mut Vec<(usize, std::time::Duration)>)
+        ensures final(v)@ == dedup_dur(old(v)@)
+    { v.dedup_by_key(|e| e.1) }
     // V.retain(C)   (rule T-ITER): std semantics, assumed
     #[verifier::external_body]
     pub fn retain<T, F: FnMut(&T) -> bool>(v: &mut Vec<T>, f: F)
